@@ -164,7 +164,18 @@ func sortFieldDescFromTag(sFiled *types.Var, tagLine string) ([]*SortFieldDesc, 
 		sfd.FieldName = sFiled.Name()
 		sfd.FieldType = sFiled.Type()
 		result = append(result, sfd)
-		remaining = reflect.StructTag(strings.Replace(string(remaining), `gsort:"`+options+`"`, "", 1))
+		// Drop the tag just consumed. Lookup returns the unquoted value, so when the raw tag
+		// contains escapes (e.g. an accessor with a string argument) the literal form does not
+		// occur in the tag; try the quoted form, and refuse rather than loop forever.
+		rest := strings.Replace(string(remaining), `gsort:"`+options+`"`, "", 1)
+		if rest == string(remaining) {
+			rest = strings.Replace(string(remaining), `gsort:`+strconv.Quote(options), "", 1)
+		}
+		if rest == string(remaining) {
+			return nil, errors.New("cannot locate gsort tag `" + options + "` of field " + sFiled.Name() +
+				" in its struct tag; write the value without unusual escape sequences")
+		}
+		remaining = reflect.StructTag(rest)
 	}
 	return result, nil
 }
